@@ -11,6 +11,7 @@ import io
 import json
 import logging
 import os
+import re
 import shutil
 import subprocess
 import sys
@@ -31,6 +32,7 @@ LF_CLASSES = ["lf", "noeol", "nonascii", "empty", "blank"]
 NL_CLASSES = ["crlf", "cr", "crlf", "mixed"]
 BAD_BYTES = b"plain line one\nbinary \xff\xfe\x80 tail \xc3\x28\nplain line three\n"
 STALE = b"stale output of an earlier run\n"
+DERIVED_SUFFIXES = [".tmp", ".bak", "~", ".orig", ".new"]
 EMPTY_DIGEST = "F:" + hashlib.sha1(b"").hexdigest()
 
 
@@ -242,8 +244,8 @@ class World:
             self.data[kid] = BAD_BYTES if faults.get(kid) == "decode" else ok_bytes(kind_index(k), self.cls[kid])
 
     def in_rel(self, k):
-        if self.mode == "single":
-            return os.path.join("in", basename(k))
+        if self.mode == "single":       # odd variants: the named file lives in a directory with a space
+            return os.path.join("in", "dev 1", basename(k)) if self.g["variant"] % 2 else os.path.join("in", basename(k))
         return os.path.normpath(os.path.join("in", DIRS[k["dir"]], basename(k)))
 
     def slot_rel(self, k):
@@ -290,11 +292,16 @@ class World:
         for k in self.files:
             kid = kind_id(k)
             slot = os.path.join(root, self.slot_rel(k))
-            visible = not (k["name"] == "dot" or k["dir"] == 3)
+            visible = self.mode == "single" or not (k["name"] == "dot" or k["dir"] == 3)
+            under_blocker = bool(blocker) and (self.slot_rel(k) + os.sep).startswith(blocker + os.sep)
             if self.faults.get(kid) == "outdir":
                 os.makedirs(slot, exist_ok=True)
-            elif g["pre"] == "stale" and visible and not (blocker and (self.slot_rel(k) + os.sep).startswith(blocker + os.sep)):
+            elif g["pre"] == "stale" and visible and not under_blocker:
                 _write(slot, STALE + kid.encode())
+            if g["pre"] == "stale" and visible and not under_blocker:
+                # unrelated files whose names are DERIVED from the output name (scratch / backup spellings)
+                for sfx in DERIVED_SUFFIXES:
+                    _write(slot + sfx, b"unrelated pre-existing file " + (kid + sfx).encode() + b"\n")
 
     def paths(self, root):
         if self.mode == "single":
@@ -339,7 +346,7 @@ class World:
             else:
                 reported = any(basename(k) in t for t in report_texts)
             events.append({
-                "ev": "file", "id": kid, "hidden": k["name"] == "dot", "indot": k["dir"] == 3,
+                "ev": "file", "id": kid, "hidden": self.mode == "tree" and k["name"] == "dot", "indot": k["dir"] == 3,
                 "fault": fault, "in0": snap0.get(ip, "ABSENT"), "in1": snap1.get(ip, "ABSENT"),
                 "pre": snap0.get(sp, "ABSENT"), "out": out, "ref": ref, "refnl": refnl,
                 "ifproc": digest(data) if fault == "decode" else ref,
@@ -670,3 +677,130 @@ def run_blocked(job, fsroot, repo):
                         "info": {"raised": raised, "reports": [x[:160] for x in texts[:3]],
                                  "others_changed": sorted(p for p in set(d0) | set(d1) if d0.get(p) != d1.get(p))[:8]}})
     return {"kind": "blk", "gid": job["gid"], "results": results}
+
+
+# ---------------------------------------------------------------------------
+# sibling inputs X and X<suffix> (scratch / backup spellings of another file's name)
+# and repeated single-file calls into one output directory
+# ---------------------------------------------------------------------------
+SIB_JOBS = {
+    # suffix, where the pairs live below in/, does the base file X fail to decode
+    "tmp-root": (".tmp", "", False), "tmp-sub": (".tmp", "sub dir", False), "tmp-bad": (".tmp", "", True),
+    "bak-root": (".bak", "", False), "tilde-sub": ("~", "sub dir/nést", False), "bak-bad": (".bak", "sub dir", True),
+    "new-root": (".new", "", False), "orig-bad": (".orig", "", True),
+}
+
+
+def run_siblings(job, fsroot, repo):
+    """Input directory holding pairs X / X<suffix>.  The listing order of a directory is the file
+    system's business, so candidates are created first and pairs are KEPT such that both orders
+    (derived name listed before / after its base) occur; every file must yield its own output."""
+    sfx, sub, bad = SIB_JOBS[job["shape"]]
+    root = os.path.join(fsroot, "w%d" % os.getpid())
+    results = []
+    for entry in job["entries"]:
+        if os.path.exists(root):
+            shutil.rmtree(root)
+        d = os.path.join(root, "in", sub)
+        os.makedirs(d)
+        cands = ["r%d.cfg" % i for i in range(14)]
+        for c in cands:
+            _write(os.path.join(d, c), b"x")
+            _write(os.path.join(d, c + sfx), b"x")
+        listing = os.listdir(d)
+        first = [c for c in cands if listing.index(c + sfx) < listing.index(c)][:2]    # derived name listed first
+        later = [c for c in cands if listing.index(c + sfx) > listing.index(c)][:2]
+        keep = first + later
+        for c in cands:
+            if c not in keep:
+                os.remove(os.path.join(d, c))
+                os.remove(os.path.join(d, c + sfx))
+        files, data, faults = [], {}, {}
+        for j, c in enumerate(keep):
+            for n, (name, isbase) in enumerate(((c, True), (c + sfx, False))):
+                r = os.path.normpath(os.path.join(sub, name))
+                files.append(r)
+                if bad and isbase:
+                    data[r], faults[r] = BAD_BYTES, "decode"
+                else:
+                    data[r], faults[r] = ok_bytes(7 + 2 * j + n, ["lf", "noeol", "nonascii"][(j + n) % 3]), "none"
+                _write(os.path.join(root, "in", r), data[r])
+        _write(os.path.join(root, "in", "plain.cfg"), ok_bytes(40, "lf"))
+        files.append("plain.cfg")
+        data["plain.cfg"], faults["plain.cfg"] = ok_bytes(40, "lf"), "none"
+        _write(os.path.join(root, "beside.txt"), b"a bystander next to the input\n")
+        snap0 = snapshot(root)
+        texts, raised = run_entry(entry, job["feat"], os.path.join(root, "in"), os.path.join(root, "out"), repo)
+        snap1 = snapshot(root)
+        shutil.rmtree(root, ignore_errors=True)
+        events, info = _project_plain(files, data, faults, snap0, snap1, texts, raised, job["feat"], "in", "out")
+        info["derived_listed_first"], info["derived_listed_later"] = len(first), len(later)
+        results.append({"entry": entry, "events": events, "info": info})
+    return {"kind": "sib", "gid": job["gid"], "results": results}
+
+
+def _project_plain(files, data, faults, snap0, snap1, texts, raised, feat, indir, outdir, slots=None):
+    """file events (reference = stream API) + end event for a hand-built tree."""
+    report_texts = list(texts) + ([raised] if raised else [])
+    events = [{"ev": "start"}]
+    special = set()
+    for r in files:
+        ip = os.path.normpath(os.path.join(indir, r))
+        sp = slots[r] if slots else os.path.normpath(os.path.join(outdir, r))
+        special.update((ip, sp))
+        ref_b = stream_ref(data[r], feat)
+        ref = "NA" if ref_b is None else digest(ref_b)
+        out = snap1.get(sp, "ABSENT")
+        events.append({"ev": "file", "id": r, "hidden": False, "indot": False, "fault": faults[r],
+                       "in0": snap0.get(ip, "ABSENT"), "in1": snap1.get(ip, "ABSENT"), "pre": snap0.get(sp, "ABSENT"),
+                       "out": out, "ref": ref, "refnl": ref, "ifproc": digest(data[r]) if faults[r] == "decode" else ref, "base": out,
+                       # the base name followed by a quote / blank / end: X must not count as named by a report about X.tmp
+                       "reported": any(re.search(re.escape(os.path.basename(r)) + r"(?![\w.~])", x) for x in report_texts), "tol": False})
+    o0 = sorted((p, v) for p, v in snap0.items() if v != "DIR" and p not in special)
+    o1 = sorted((p, v) for p, v in snap1.items() if v != "DIR" and p not in special)
+    events.append({"ev": "end", "others0": "O:" + hashlib.sha1(json.dumps(o0).encode()).hexdigest(),
+                   "others1": "O:" + hashlib.sha1(json.dumps(o1).encode()).hexdigest(),
+                   "raised": bool(raised), "mayraise": False})
+    d0, d1 = dict(o0), dict(o1)
+    return events, {"raised": raised, "reports": [x[:160] for x in texts[:3]],
+                    "others_changed": sorted(p for p in set(d0) | set(d1) if d0.get(p) != d1.get(p))[:8]}
+
+
+SEQ_JOBS = {
+    # (input name, output name) of the first and of the second single-file call into the same directory
+    "tmp-then-base": [("dev 1/a.cfg", "res/X.tmp"), ("dev 1/b.cfg", "res/X")],
+    "base-then-tmp": [("a.cfg", "res/X"), ("b.cfg", "res/X.tmp")],
+    "bak-then-base": [(".running-config", "res/out.cfg.bak"), ("dev 1/.startup config", "res/out.cfg")],
+    "three-calls": [("a.cfg", "res dir/r.cfg.tmp"), ("b.cfg", "res dir/r.cfg"), ("c.cfg", "res dir/r.cfg~")],
+}
+
+
+def run_sequence(job, fsroot, repo):
+    """Several single-file calls, one after the other, into ONE output directory.  Each call is a run of
+    its own: the results of the earlier calls are pre-existing files that must stay byte-identical."""
+    calls = SEQ_JOBS[job["shape"]]
+    root = os.path.join(fsroot, "w%d" % os.getpid())
+    results = []
+    for entry in job["entries"]:
+        if os.path.exists(root):
+            shutil.rmtree(root)
+        os.makedirs(root)
+        data = {}
+        for j, (i, o) in enumerate(calls):
+            data[i] = ok_bytes(11 + j, ["lf", "nonascii", "noeol"][j % 3])
+            _write(os.path.join(root, "in", i), data[i])
+        os.makedirs(os.path.join(root, os.path.dirname(calls[0][1])))
+        evs_all, infos = [], []
+        for j, (i, o) in enumerate(calls):
+            snap0 = snapshot(root)
+            texts, raised = run_entry(entry, job["feat"], os.path.join(root, "in", i), os.path.join(root, o), repo)
+            snap1 = snapshot(root)
+            ev, info = _project_plain([i], data, {i: "none"}, snap0, snap1, texts, raised, job["feat"], "in", "", slots={i: os.path.normpath(o)})
+            ev[-1]["mayraise"] = entry == "fafile"
+            evs_all.append(ev)
+            infos.append(info)
+        shutil.rmtree(root, ignore_errors=True)
+        results.append({"entry": entry, "events": [e for ev in evs_all for e in ev],
+                        "info": {"raised": [x["raised"] for x in infos], "reports": [],
+                                 "others_changed": [x["others_changed"] for x in infos]}})
+    return {"kind": "seq", "gid": job["gid"], "results": results}
